@@ -467,7 +467,7 @@ class Fn:
         if k == "Ident":
             nm = p["name"]
             s.env[nm] = t
-            if t == ("selfalias",):
+            if t in (("selfalias",), ("readerref",)):
                 return krest()
             if t and t[0] == "rbnew":
                 s.env[nm] = ("rb",)
@@ -664,6 +664,8 @@ class Fn:
             nm = p[0]
             if nm in s.env and s.env[nm] == ("reader",):
                 return k(nm, ("reader",))
+            if nm in s.env and s.env[nm] == ("readerref",):
+                return k("tt", ("readerref",))       # a handle on the struct's first reader: no run-time content in the model
             if nm in s.env:
                 return k(s.sub.get(nm, nm), s.env[nm])
             if nm == "SIZE":
